@@ -96,7 +96,7 @@ RepItems(cfg, E, es, i, idx) ==
 
 \* a non-omitted value under field index idx
 Framed(cfg, T0, v, idx) == LET T == Resolve(T0) IN
-  IF T.k = "ptr" THEN Framed(cfg, T.e, v.v, idx)
+  IF T.k = "ptr" THEN (IF v.nil THEN <<>> ELSE Framed(cfg, T.e, v.v, idx))     \* a nil pointer writes nothing (also an inner one: **T)
   ELSE IF T.k = "slice" /\ IsRepeated(cfg, T) THEN RepItems(cfg, T.e, v.e, 1, idx)
   ELSE IF T.k = "map" /\ T.proto THEN Entries(cfg, T, v.m, 1, Tag(WTLength, idx))
   ELSE LET w == WT(cfg, T)  b == Body(cfg, T, v) IN
